@@ -355,13 +355,13 @@ type SparseConstInt8VectorJointIterator struct {
   idx int
   s1 ConstInt8
   s2 ConstScalar
+  ok bool
 }
 func (obj *SparseConstInt8VectorJointIterator) Index() int {
   return obj.idx
 }
 func (obj *SparseConstInt8VectorJointIterator) Ok() bool {
-  return !(obj.s1.GetInt8() == int8(0)) ||
-         !(obj.s2.GetInt8() == int8(0))
+  return obj.ok
 }
 func (obj *SparseConstInt8VectorJointIterator) Next() {
   ok1 := obj.it1.Ok()
@@ -382,6 +382,9 @@ func (obj *SparseConstInt8VectorJointIterator) Next() {
       obj.s2 = obj.it2.GetConst()
     }
   }
+  // the iterator is valid as long as one of the vectors delivered an entry,
+  // regardless of its value
+  obj.ok = ok1 || ok2
   if obj.s1 != ConstInt8(0) {
     obj.it1.Next()
   }
@@ -404,6 +407,7 @@ func (obj *SparseConstInt8VectorJointIterator) CloneConstJointIterator() VectorC
   r.idx = obj.idx
   r.s1 = obj.s1
   r.s2 = obj.s2
+  r.ok = obj.ok
   return &r
 }
 /* math
